@@ -115,6 +115,8 @@ class ScheduledFiniteThrust(ContinuousStateChangeEvent, metaclass=ABCMeta):
         self.start_time = start_time
         self.end_time = end_time
         self.agent_id = agent_id
+        # Whether this event has switched the thrust on, see :meth:`.getStateChangeCallback`
+        self._thrusting = False
 
     def __call__(self, time: ScenarioTime, state: ndarray):
         """When this function returns zero during integration, it interrupts the integration process.
@@ -126,7 +128,9 @@ class ScheduledFiniteThrust(ContinuousStateChangeEvent, metaclass=ABCMeta):
         _fval = self.end_time - time
         if fpe_equals(_ival, 0.0) or fpe_equals(_fval, 0.0):
             return 0.0
-        return _ival
+        # [NOTE]: Once the thrust is on, watch for the end of the interval, so that an end time that falls inside a
+        #   step also stops the integrator (`_ival` alone is negative on both sides of the end time).
+        return _fval if self._thrusting else _ival
 
     def __eq__(self, other: ScheduledFiniteThrust):
         """Check for equality between maneuver events.
@@ -157,9 +161,13 @@ class ScheduledFiniteThrust(ContinuousStateChangeEvent, metaclass=ABCMeta):
         See Also:
             :meth:`.ContinuousStateChangeEvent.getStateChangeCallback()`
         """
-        if fpe_equals(self.end_time - time, 0.0):
+        # [NOTE]: `time` may be the root found by the integrator, which is only accurate to the root finder's
+        #   tolerance, so the end of the interval is recognized within a microsecond rather than to the last bit.
+        if self.end_time - time <= 1e-6:
+            self._thrusting = False
             EventStack.pushEvent(EventRecord(f"Finite thrust ended at {time}", self.agent_id))
             return None
+        self._thrusting = True
         EventStack.pushEvent(EventRecord(f"Finite thrust at {time}", self.agent_id))
         return self.thrust_func
 
